@@ -24,34 +24,21 @@ Theorem C12_kept_spec : forall ign ns vs,
   kept facts_now ign ns vs = map snd (filter (fun nv => negb (mem (fst nv) ign)) (combine ns vs)).
 Proof. intros. exact (kept_spec facts_now ign ns vs eq_refl). Qed.
 
-(* two plain records are equal exactly when they have the same identifier (name, descriptor hash) and their
-   kept values are pairwise equal *)
+(* two plain records are equal exactly when they have the same descriptor (name and declared fields) and their
+   kept values are pairwise equal -- for EVERY descriptor-hash function H, colliding or not *)
 Theorem C12_eq_spec : forall H ign n1 f1 v1 n2 f2 v2,
   rec_eq facts_now H ign (PRec n1 f1 v1) (PRec n2 f2 v2) = Some true <->
-  (n1 = n2 /\ H n1 f1 = H n2 f2) /\
+  (n1, f1) = (n2, f2) /\
   Forall2 (fun a b => py_eq facts_now H ign ign a b = true)
           (kept facts_now ign (slots facts_now f1) v1) (kept facts_now ign (slots facts_now f2) v2).
 Proof. intros. exact (rec_eq_spec facts_now H eq_refl ign n1 f1 v1 n2 f2 v2). Qed.
 
-(* ... which is "the same descriptor" as the property words it, for every pair of descriptors that the
-   descriptor hash separates *)
-Theorem C12_eq_spec_descriptor_partial : forall H ign n1 f1 v1 n2 f2 v2,
-  (H n1 f1 = H n2 f2 -> n1 = n2 -> f1 = f2) ->
-  (rec_eq facts_now H ign (PRec n1 f1 v1) (PRec n2 f2 v2) = Some true <->
-   (n1, f1) = (n2, f2) /\
-   Forall2 (fun a b => py_eq facts_now H ign ign a b = true)
-           (kept facts_now ign (slots facts_now f1) v1) (kept facts_now ign (slots facts_now f2) v2)).
-Proof. intros H ign n1 f1 v1 n2 f2 v2. exact (rec_eq_spec_descriptor facts_now H eq_refl ign n1 f1 v1 n2 f2 v2). Qed.
-
-(* The unrestricted "same descriptor" statement is FALSE of the faithful model: the hash input is the plain
-   concatenation name + n1 + t1 + n2 + t2 ..., so whatever the digest function, the two DIFFERENT descriptors
-   ("t/c", [stringlist a; string b]) and ("t/c", [string a; string listb]) share their identifier, and records of
-   them with coinciding packed values are equal (known finding C12-identifier-coincidence). *)
-Theorem C12_eq_same_descriptor_refuted : descriptor_hash_input_is_concat = true -> forall sha : string -> Z,
-  let H := fun n f => sha (hash_input n f) in
-  coll_fields_1 <> coll_fields_2 /\
-  rec_eq facts_now H [] (PRec "t/c" coll_fields_1 coll_vals) (PRec "t/c" coll_fields_2 coll_vals) = Some true.
-Proof. intros _ sha. exact (identifier_coincidence facts_now eq_refl sha). Qed.
+(* in particular two descriptors that share their identifier (name, 32-bit hash) -- e.g.
+   ("t/c", [stringlist a; string b]) and ("t/c", [string a; string listb]), whose hash inputs coincide -- never
+   give equal records, whatever the values *)
+Theorem C12_distinct_descriptors_unequal : forall H ign n1 f1 v1 n2 f2 v2, (n1, f1) <> (n2, f2) ->
+  rec_eq facts_now H ign (PRec n1 f1 v1) (PRec n2 f2 v2) = Some false.
+Proof. intros H ign n1 f1 v1 n2 f2 v2. exact (distinct_descriptors_unequal facts_now H eq_refl ign n1 f1 v1 n2 f2 v2). Qed.
 
 (* grouped records: same name and pairwise equal members *)
 Theorem C12_eq_spec_grouped : forall H ign n1 m1 n2 m2, forallb is_record m2 = true ->
@@ -112,6 +99,18 @@ Definition nan_rec (oid : Z) : pval :=
 Example C12_nan : is_nan nan_bits = true /\
   rec_eq facts_now H0 [] (nan_rec 1) (nan_rec 1) = Some true /\
   rec_eq facts_now H0 [] (nan_rec 1) (nan_rec 2) = Some false.
+Proof. repeat split. Qed.
+
+(* the former identifier coincidence, under a hash that collides for ALL descriptors: unequal, also nested and grouped *)
+Definition coll1 : pval := PRec "t/c" [("stringlist", "a"); ("string", "b")] [PNone; PStr "79"; PNone; PNone; PDt 0 0 0 false; PInt 1].
+Definition coll2 : pval := PRec "t/c" [("string", "a"); ("string", "listb")] [PNone; PStr "79"; PNone; PNone; PDt 0 0 0 false; PInt 1].
+Definition nest (r : pval) : pval := PRec "sp/n" [("record", "r"); ("record[]", "rs")] [r; PList [r]; PNone; PNone; PDt 0 0 0 false; PInt 1].
+Example C12_coincidence_unequal :
+  rec_eq facts_now H0 [] coll1 coll2 = Some false /\ rec_eq facts_now H0 [] coll2 coll1 = Some false /\
+  rec_ne facts_now H0 [] coll1 coll2 = Some true /\
+  rec_eq facts_now H0 [] (nest coll1) (nest coll2) = Some false /\
+  rec_eq facts_now H0 [] (PGrp "g" [coll1]) (PGrp "g" [coll2]) = Some false /\
+  rec_eq facts_now H0 [] coll1 coll1 = Some true.
 Proof. repeat split. Qed.
 
 (* non-vacuity: a nested / grouped record with a list, a dict and a command-like value meets the hypotheses,
